@@ -188,7 +188,8 @@ class Sim:
             else:
                 mv = HamiltonianDisplacementMove(operation=Verlet(dt=lf.get("dt", 1.0), max_steps=lf.get("n", 3)))
             if "default_label" in lf and k in ("disp", "exch"):
-                mv.default_label = lf["default_label"]
+                # a label taken out of an array (labels.min(), labels[3]) is a numpy integer, not an int
+                mv.default_label = np.int64(lf["default_label"]) if lf.get("default_label_np") and lf["default_label"] is not None else lf["default_label"]
             mv.max_attempts = p.get("max_attempts", 2)
             if p.get("criteria") != "shipped":
                 mv.check_move = self.check
